@@ -292,8 +292,271 @@ pub fn run_history_property<H: HB>(prop: &'static str, tier: Tier) -> Outcome {
     out
 }
 
+/// Alphabet that reaches every arrangement (slot order x heap shape) of a small universe.
+pub const A_REACH: u32 = A_PUSH | A_CHANGE | A_REMOVE | A_POP | A_CONVERT;
+
+/// C06/C09/C13/C16: the property is a statement about programs run FROM every reachable state.
+pub fn run_probe_property<H: HB>(prop: &'static str, tier: Tier) -> Outcome {
+    let mut out = Outcome::new();
+    let q = tier == Tier::Quick;
+    let (k, m) = match (prop, q) {
+        ("C16", true) => (2, 2),
+        ("C16", false) => (3, 2),
+        (_, true) => (3, 3),
+        (_, false) => (4, 3),
+    };
+    let prios: Vec<i32> = (0..m).collect();
+    let mut cfg = base_cfg(prop, k, &prios, A_REACH | if prop == "C16" { A_CLEAR_DRAIN | A_DRAIN_FORGET } else { 0 });
+    cfg.deep = false;
+    let universe = cfg.universe();
+    let mk = |ex: &mut Explorer<H>| {
+        for p in crate::probes::all_probes::<H>(prop, &universe) {
+            ex.probes.push(p);
+        }
+    };
+    run_closed::<H>(&mut out, &format!("E1 closed ({k} items x {m} priorities) + programs from every state"), &cfg, &mk);
+    if !out.violations.is_empty() || prop == "C16" && q {
+        return out;
+    }
+    // programs from deep trees too (depth 0: the seeds themselves)
+    let sizes: Vec<usize> = match (prop, q) {
+        ("C16", _) => vec![7, 8],
+        (_, true) => vec![5, 6, 7],
+        (_, false) => vec![5, 6, 7, 8, 9, 10],
+    };
+    for n in sizes {
+        let mut c = seeds_cfg(prop, n, &REL_BIN, A_REACH);
+        c.deep = false;
+        let seeds = if n <= 8 { f_bin(n) } else { f_seg(n) };
+        let uni = c.universe();
+        let mk = |ex: &mut Explorer<H>| {
+            for p in crate::probes::all_probes::<H>(prop, &uni[..uni.len().min(3)]) {
+                ex.probes.push(p);
+            }
+        };
+        run_seeds::<H>(&mut out, &format!("E2 seeds of {n} elements, programs from every seed"), &c, seeds, 0, &mk);
+        if !out.violations.is_empty() {
+            return out;
+        }
+    }
+    out
+}
+
+fn absorb_post(out: &mut Outcome, label: &str, cases: u64, viol: Vec<Case>, t0: Instant, extra: Value) {
+    out.transitions += cases;
+    out.validated += cases;
+    out.layers.push(json!({"layer": label, "cases": cases, "wall_s": t0.elapsed().as_secs_f64(), "detail": extra}));
+    for c in viol {
+        if !out.violations.iter().any(|x| x.signature() == c.signature()) {
+            out.violations.push(c);
+        }
+    }
+}
+
+/// sequences of (item, priority) pairs with distinct payloads (so that which item value is kept is visible)
+pub fn pair_seqs(keys: &[u32], prios: &[i32], max_len: usize) -> Vec<Vec<Pair>> {
+    let mut out: Vec<Vec<Pair>> = vec![vec![]];
+    let mut layer: Vec<Vec<Pair>> = vec![vec![]];
+    for pos in 0..max_len {
+        let mut next = vec![];
+        for v in &layer {
+            for &k in keys {
+                for &p in prios {
+                    let mut w = v.clone();
+                    w.push((k, 100 + pos as u8, p));
+                    next.push(w);
+                }
+            }
+        }
+        out.extend(next.iter().cloned());
+        layer = next;
+    }
+    out
+}
+
+/// long sequences (>= 17 pairs) that put extend on the rebuild side of its threshold
+pub fn long_seqs(n_present: u32, prios: &[i32]) -> Vec<Vec<Pair>> {
+    let np = prios.len();
+    let mut out = vec![];
+    for len in [17usize, 18, 24] {
+        // all new items, ascending / descending / constant priorities
+        out.push((0..len).map(|i| (n_present + i as u32, 100, prios[i % np])).collect());
+        out.push((0..len).map(|i| (n_present + i as u32, 100, prios[(len - i) % np])).collect());
+        out.push((0..len).map(|i| (n_present + i as u32, 100, prios[0])).collect());
+        // alternate present / new items
+        out.push((0..len).map(|i| (if i % 2 == 0 { (i as u32 / 2) % n_present.max(1) } else { n_present + i as u32 }, 100 + i as u8, prios[(i * 7) % np])).collect());
+        // one present item repeated with varying priority, the last one decides
+        out.push((0..len).map(|i| (0u32, 100 + i as u8, prios[(i * 3 + 1) % np])).collect());
+        // one new item repeated
+        out.push((0..len).map(|i| (n_present + 1, 100 + i as u8, prios[(i * 5 + 2) % np])).collect());
+        // every present item rewritten, then new ones
+        out.push((0..len).map(|i| (i as u32, 100 + i as u8, prios[(i + 1) % np])).collect());
+    }
+    out
+}
+
+pub fn run_c07<H: HB>(tier: Tier) -> Outcome {
+    let prop = "C07";
+    let mut out = Outcome::new();
+    let q = tier == Tier::Quick;
+    let th = threads();
+    // (a) constructors: all vectors with repeats, From<Vec> first-wins, FromIterator last-wins, all hints
+    let (k, m, len) = if q { (3u32, 2usize, 4usize) } else { (3, 3, 4) };
+    let prios: Vec<i32> = (0..m as i32).collect();
+    let keys: Vec<u32> = (0..k).collect();
+    let seqs = pair_seqs(&keys, &prios, len);
+    {
+        let t0 = Instant::now();
+        let mut cfg = base_cfg(prop, k, &prios, A_POP);
+        cfg.root_vec_len = 0;
+        let mut roots = vec![];
+        for d in [false, true] {
+            for s in &seqs {
+                roots.push((d, Root::FromVec(s.clone())));
+            }
+        }
+        let ex = Explorer::<H>::new(&cfg);
+        ex.run(roots, Some(0));
+        out.absorb(&format!("From<Vec>: all {} vectors of <= {len} pairs over {k} items x {m} priorities, both kinds", seqs.len()), &ex, t0);
+        if !out.violations.is_empty() {
+            return out;
+        }
+        let t0 = Instant::now();
+        let uni = cfg.universe();
+        let (cases, viol) = crate::post::par_each(seqs.len() * 2, th, |i| {
+            let d = i % 2 == 1;
+            let s = &seqs[i / 2];
+            crate::crash::set_case(|| Case { prop: prop.into(), hasher: H::NAME.into(), double: d, root: Root::FromIter(s.clone(), Hint { lo: 0, hi: None }), ops: vec![], last: None, probe: Some("from_iter-differential".into()), detail: String::new(), universe: uni.clone(), aux: None });
+            crate::post::from_iter_differential::<H>(d, &uni, s, true).map_err(|(r, e)| Case {
+                prop: prop.into(), hasher: H::NAME.into(), double: d, root: r, ops: vec![], last: None,
+                probe: Some("from_iter-differential".into()), detail: e, universe: uni.clone(), aux: None,
+            })
+        });
+        absorb_post(&mut out, "FromIterator: same vectors x every legal size_hint, differential over hints", cases, viol, t0, json!({"sequences": seqs.len(), "hints_per_sequence": crate::post::hint_menu(2, true).len()}));
+        if !out.violations.is_empty() {
+            return out;
+        }
+    }
+    // (b) extend on every reachable small state and on deep seeds, differential over hints
+    {
+        let t0 = Instant::now();
+        let (k, m) = if q { (3u32, 2usize) } else { (3, 3) };
+        let prios: Vec<i32> = (0..m as i32).collect();
+        let mut cfg = base_cfg(prop, k, &prios, A_REACH | A_APPEND | A_EXTEND);
+        cfg.append_max = 2;
+        let mut ex = Explorer::<H>::new(&cfg);
+        ex.collect = Some(Default::default());
+        ex.run_closed();
+        out.absorb(&format!("E1 closed ({k} items x {m} priorities) with extend/append/conversion transitions"), &ex, t0);
+        if !out.violations.is_empty() {
+            return out;
+        }
+        let nodes = ex.collect.take().unwrap().into_inner().unwrap();
+        let uni: Vec<u32> = (0..k + 1).collect();
+        let keys: Vec<u32> = (0..k + 1).collect();
+        let seqs = pair_seqs(&keys, &prios, if q { 2 } else { 3 });
+        let t0 = Instant::now();
+        let (cases, viol) = crate::post::par_each(nodes.len(), th, |i| {
+            let n = &nodes[i];
+            let mm = model_of(&n.q.snap());
+            crate::crash::set_case(|| crate::post::node_case(prop, n, &uni, None, "extend-differential", String::new()));
+            crate::post::extend_differential(&n.q, &mm, &uni, &seqs, true).map_err(|(op, e)| crate::post::node_case(prop, n, &uni, Some(op), "extend-differential", e))
+        });
+        absorb_post(&mut out, "extend: every E1 state x every sequence x every legal size_hint, differential over hints", cases, viol, t0, json!({"receivers": nodes.len(), "sequences": seqs.len()}));
+        if !out.violations.is_empty() {
+            return out;
+        }
+        // (c) append: all ordered pairs of explored states
+        let t0 = Instant::now();
+        let nn = nodes.len();
+        let (cases, viol) = crate::post::par_each(nn, th, |i| {
+            let a = &nodes[i];
+            let mut c = 0;
+            for b in &nodes {
+                if !crate::post::same_kind(&a.q, &b.q) {
+                    continue;
+                }
+                crate::crash::set_case(|| {
+                    let mut cs = crate::post::node_case(prop, a, &uni, None, "append-pair", String::new());
+                    cs.aux = Some((b.root.0, b.root.1.clone(), b.ops()));
+                    cs
+                });
+                c += 1;
+                crate::post::append_pair(&a.q, &b.q, &uni).map_err(|e| {
+                    let mut cs = crate::post::node_case(prop, a, &uni, None, "append-pair", e);
+                    cs.aux = Some((b.root.0, b.root.1.clone(), b.ops()));
+                    cs
+                })?;
+            }
+            Ok(c)
+        });
+        absorb_post(&mut out, "append: all ordered pairs of E1 states of the same kind", cases, viol, t0, json!({"states": nn}));
+        if !out.violations.is_empty() {
+            return out;
+        }
+    }
+    // deep receivers: both sides of the push-versus-rebuild threshold
+    let sizes: Vec<usize> = if q { vec![8, 9, 16] } else { vec![7, 8, 9, 15, 16, 17, 32, 33] };
+    for n in sizes {
+        let t0 = Instant::now();
+        let mut cfg = seeds_cfg(prop, n, &REL_TERN, A_APPEND | A_CONVERT);
+        cfg.append_max = if q { 2 } else { 3 };
+        cfg.deep = n <= 9;
+        let seeds = if n <= 8 && !q || n <= 7 { f_bin(n) } else { f_seg(n) };
+        let mut ex = Explorer::<H>::new(&cfg);
+        ex.collect = Some(Default::default());
+        let mut roots = vec![];
+        for d in [false, true] {
+            for s in &seeds {
+                roots.push((d, s.clone()));
+            }
+        }
+        ex.run(roots, Some(0));
+        let nodes = ex.collect.take().unwrap().into_inner().unwrap();
+        out.absorb(&format!("E2 receivers of {n} elements"), &ex, t0);
+        if !out.violations.is_empty() {
+            return out;
+        }
+        let uni = cfg.universe();
+        let keys: Vec<u32> = vec![0, n as u32 / 2, n as u32 - 1, n as u32];
+        let mut seqs = pair_seqs(&keys, &[5, 15, 35], if q { 1 } else { 2 });
+        seqs.extend(long_seqs(n as u32, &REL_TERN));
+        let t0 = Instant::now();
+        let (cases, viol) = crate::post::par_each(nodes.len(), th, |i| {
+            let nd = &nodes[i];
+            let mm = model_of(&nd.q.snap());
+            crate::crash::set_case(|| crate::post::node_case(prop, nd, &uni, None, "extend-differential", String::new()));
+            crate::post::extend_differential(&nd.q, &mm, &uni, &seqs, true).map_err(|(op, e)| crate::post::node_case(prop, nd, &uni, Some(op), "extend-differential", e))
+        });
+        absorb_post(&mut out, &format!("extend on receivers of {n} elements: short and >= 17-pair sequences x every legal hint (push and rebuild strategies), differential"), cases, viol, t0, json!({"receivers": nodes.len(), "sequences": seqs.len()}));
+        if !out.violations.is_empty() {
+            return out;
+        }
+        // append / conversion transitions from the seeds
+        let t0 = Instant::now();
+        let ex2 = Explorer::<H>::new(&cfg);
+        let mut roots = vec![];
+        for d in [false, true] {
+            for s in &seeds {
+                roots.push((d, s.clone()));
+            }
+        }
+        ex2.run(roots, Some(1));
+        out.absorb(&format!("E2 append/convert from receivers of {n} elements"), &ex2, t0);
+        if !out.violations.is_empty() {
+            return out;
+        }
+    }
+    out
+}
+
 pub fn run_property(prop: &str, tier: Tier) -> Outcome {
     match prop {
+        "C07" => run_c07::<FnvBuild>(tier),
+        "C06" => run_probe_property::<FnvBuild>("C06", tier),
+        "C09" => run_probe_property::<FnvBuild>("C09", tier),
+        "C13" => run_probe_property::<FnvBuild>("C13", tier),
+        "C16" => run_probe_property::<FnvBuild>("C16", tier),
         "C01" => run_history_property::<FnvBuild>("C01", tier),
         "C02" => run_history_property::<FnvBuild>("C02", tier),
         "C03" => run_history_property::<FnvBuild>("C03", tier),
